@@ -829,6 +829,17 @@ func cmdCheck(args []string) int {
 				covers++
 				if o.Status == "failed" {
 					name := o.Name
+					if o.Class == "cover-return" {
+						// a return statement no execution reaches under the contract: either genuinely dead code (listed in
+						// the baseline) or the assumptions on that path have become contradictory -- then every obligation
+						// on it is vacuous
+						newUnproved = append(newUnproved, name)
+						if !unprovedOK[name] {
+							writeReplay(*prop, name, "VACUOUS PATH: no execution reaches this return of "+key+" under the assumed contracts (it was reachable when the baseline was written)\n"+o.Result.Output)
+							violations = append(violations, fmt.Sprintf("VIOLATION property=%s replay=%s no-failing-input-found", *prop, replayPath(*prop, name)))
+						}
+						continue
+					}
 					writeReplay(*prop, name, "VACUOUS: the precondition of "+key+" is unsatisfiable\n"+o.Result.Output)
 					violations = append(violations, fmt.Sprintf("VIOLATION property=%s replay=%s no-failing-input-found", *prop, replayPath(*prop, name)))
 				}
